@@ -114,6 +114,27 @@ class Session:
             m.set(k, o.operator, o.error)
             self.flags.add("stored")
             return label
+        if kind == "resave":
+            # documented idiom (Inventory.__delitem__ docstring): mutate a loaded operator in place and
+            # assign it again to the same key -> the store must hold (and persist) the mutated content
+            k = op[1]
+            label = "resave-in-place"
+            if not m.contains(k) or m.readonly:
+                return "resave-skipped"
+            try:
+                got = e[k]
+                arr = got.operator
+                if not arr.flags.writeable:
+                    return "resave-skipped"
+                arr *= -1.5
+                arr[0, 0, 0, 0] += 1.0
+                e[k] = got
+            except Exception as ex:
+                raise Diverged(f"C37/{label}/raises", f"{label} {k} raised {type(ex).__name__}: {str(ex)[:200]}")
+            m.set(k, got.operator, got.error)
+            self.hit("resave_in_place")
+            self.flags.add("stored")
+            return label
         if kind == "get":
             k = op[1]
             present = m.contains(k)
@@ -336,7 +357,9 @@ def random_history(rng):
     for _ in range(n):
         r = rng.random()
         k = pool[int(rng.integers(len(pool)))]
-        if r < 0.25:
+        if r < 0.05:
+            hist.append(("resave", k))
+        elif r < 0.25:
             hist.append(("set" if rng.random() < 0.5 else "sete", k) + (("inventory",) if rng.random() < 0.15 else ()))
         elif r < 0.50:
             how = rng.random()
